@@ -267,9 +267,9 @@ def rules_macro(run):
 
 
 def check(run):
-    rules_apply(run)
+    run.guard(rules_apply, run)
     from . import c07
-    c07.rules_order(run, 'C03', '.5')
-    rules_macro(run)
+    run.guard(c07.rules_order, run, 'C03', '.5')
+    run.guard(rules_macro, run)
     from .c16 import rules_caches
-    rules_caches(run, 'C03', '.8')
+    run.guard(rules_caches, run, 'C03', '.8')
